@@ -134,7 +134,7 @@ fn small_fv(t: &ATerm) -> bool {
 }
 
 pub fn gen_history(rng: &mut Rng) -> (Vec<Op>, &'static str) {
-    let stream = match rng.below(14) {
+    let stream = match rng.below(15) {
         0..=2 => "mixed",
         3 => "symmetry",
         4 => "redundancy",
@@ -142,9 +142,10 @@ pub fn gen_history(rng: &mut Rng) -> (Vec<Op>, &'static str) {
         6 | 7 => "binders",
         8 | 9 => "inherit",
         10 | 11 => "symred",
+        12 => "upmerge",
         _ => "deepsym",
     };
-    if stream == "inherit" || stream == "symred" || stream == "deepsym" {
+    if stream == "inherit" || stream == "symred" || stream == "deepsym" || stream == "upmerge" {
         return (gen_structured(rng, stream), stream);
     }
     let nfree = rng.range(2, 4);
@@ -371,6 +372,49 @@ fn gen_structured(rng: &mut Rng, stream: &str) -> Vec<Op> {
             terms.len() - 1
         }
     };
+    if stream == "upmerge" {
+        // two parent classes over two child classes, one of them symmetric, in different orientations, each parent also
+        // pinning one of the child's slots; the children are unioned afterwards, so the parents become congruent only
+        // through upward merging — and only modulo the child's symmetry
+        let a = |sl: &[u32]| q(sl);
+        let b = |sl: &[u32]| p(sl);
+        let var = |c: u32| leaf(2, &[c]);
+        let outer = if rng.chance(1, 2) { 14 } else { 4 };
+        let sigma = random_perm(rng, n);
+        let pin = rng.below(n);
+        let ia = push(&mut terms, a(&slots));
+        let ib = push(&mut terms, b(&slots));
+        push(&mut terms, bin(outer, a(&slots), var(slots[pin])));
+        push(&mut terms, bin(outer, b(&perm_slots(&sigma)), var(slots[pin])));
+        // the pairs a wrong orientation would identify
+        push(&mut terms, bin(outer, a(&slots), var(slots[(pin + 1) % n])));
+        push(&mut terms, bin(outer, b(&slots), var(slots[pin])));
+        let mut sym_unions = Vec::new();
+        for _ in 0..rng.range(1, 2) {
+            let g = random_perm(rng, n);
+            if g != id {
+                let j = push(&mut terms, a(&perm_slots(&g)));
+                sym_unions.push((ia, j));
+            }
+        }
+        let link = if rng.chance(1, 2) { (ia, ib) } else { (ib, ia) };
+        if rng.chance(2, 3) {
+            unions.extend(sym_unions);
+            unions.push(link);
+        } else {
+            unions.push(link);
+            unions.extend(sym_unions);
+        }
+        let mut ops: Vec<Op> = terms.into_iter().map(Op::Add).collect();
+        ops.push(Op::Query);
+        for (i, j) in unions {
+            if i != j {
+                ops.push(Op::Union(i, j));
+                ops.push(Op::Query);
+            }
+        }
+        return ops;
+    }
     if stream == "deepsym" {
         // a symmetry created at the bottom has to travel two or three levels up:
         // A = leaf, C = h(A), G = k(C·σ1, C·σ2), GG = h(G) / k(G, C)
